@@ -125,6 +125,22 @@ func (w *World) replayNative(overlayPath string, doc *ReplayDoc, docPath string,
 	s := string(out)
 	ok := false
 	switch doc.Kind {
+	case "history":
+		// run the harness natively twice in fresh processes: without and with the preceding history
+		obs := func(phase string) string {
+			f := docPath + ".observe-" + phase
+			os.Remove(f)
+			c := exec.Command("go", "test", "-vet=off", "-count=1", "-overlay", overlayPath, "-run", "^TestVerifReplay$", "./"+doc.Pkg)
+			c.Dir = w.repo
+			c.Env = append(os.Environ(), "GOFLAGS=-mod=mod", "GOPROXY=off", "GOSUMDB=off", "GOTOOLCHAIN=local",
+				"VRT_MODEL="+docPath, "VRT_HARNESS="+doc.Harness, "VRT_PHASE="+phase, "VRT_OBSERVE="+f)
+			c.CombinedOutput()
+			b, _ := os.ReadFile(f)
+			return string(b)
+		}
+		a, b := obs("A"), obs("B")
+		s = "without history:\n" + a + "with history:\n" + b
+		ok = a != "" && b != "" && a != b
 	case "panic":
 		ok = strings.Contains(s, "PANIC:") || strings.Contains(s, "panic:")
 	default:
@@ -291,7 +307,7 @@ func cmdCheck(args []string) {
 			evaluations += len(o.Verdicts)
 			isKF := o.Kind == "known-finding"
 			switch o.Kind {
-			case "assert", "panic", "unwind":
+			case "assert", "panic", "unwind", "history":
 				obligations++
 			}
 			switch o.Status {
